@@ -23,24 +23,49 @@ pub fn kind_name(n: &Node) -> &'static str {
     }
 }
 
-/// the table of Syntax/Shape.v `bad_pair`, transcribed independently from the grammar
-pub fn is_bad(xlsx: bool, p: &str, pos: &str, c: &str) -> bool {
-    let bu = ["Cmp", "Concat", "Add", "Sub", "Prod", "Pow", "Neg", "Pct", "Range"].contains(&c);
-    let np = bu || c == "At" || c == "Spill";
+/// the table of Syntax/Shape.v `bad_pair`: since commit 1fc9128 only the three associative cases
+/// are printed bare (structure changes, value does not)
+pub fn is_bad(_xlsx: bool, p: &str, pos: &str, c: &str) -> bool {
     match (p, pos) {
-        ("Cmp", "right") => c == "Cmp",
-        ("Concat", "left") => c == "Cmp",
-        ("Concat", "right") => c == "Cmp" || c == "Concat",
-        ("Add", "left") | ("Sub", "left") => c == "Concat",
-        ("Add", "right") => c == "Concat" || c == "Add" || c == "Sub",
-        ("Sub", "right") => c == "Concat",
-        ("Prod", _) => c == "Concat",
-        ("Neg", "only") => ["Cmp", "Concat", "Prod"].contains(&c),
-        ("Pct", "only") => ["Cmp", "Concat", "Add", "Sub", "Prod", "Pow"].contains(&c),
-        ("Range", "left") => bu,
-        ("Range", "right") => if xlsx { bu } else { np },
-        ("At", "only") | ("Spill", "only") => !xlsx && np,
+        ("Concat", "right") => c == "Concat",
+        ("Add", "right") => c == "Add" || c == "Sub",
         _ => false,
+    }
+}
+
+/// what the parser makes of a tree whose associative right operands are printed bare:
+/// a+(b+c) -> (a+b)+c, a+(b-c) -> (a+b)-c, a&(b&c) -> (a&b)&c, everywhere
+pub fn reassoc(n: &Node) -> Node {
+    use Node::*;
+    let bx = |x: Node| Box::new(x);
+    match n {
+        OpSumKind { kind: OpSum::Add, left, right } => {
+            let l = reassoc(left);
+            match reassoc(right) {
+                OpSumKind { kind, left: b, right: c } => OpSumKind { kind, left: bx(reassoc(&OpSumKind { kind: OpSum::Add, left: bx(l), right: b })), right: c },
+                r => OpSumKind { kind: OpSum::Add, left: bx(l), right: bx(r) },
+            }
+        }
+        OpConcatenateKind { left, right } => {
+            let l = reassoc(left);
+            match reassoc(right) {
+                OpConcatenateKind { left: b, right: c } => OpConcatenateKind { left: bx(reassoc(&OpConcatenateKind { left: bx(l), right: b })), right: c },
+                r => OpConcatenateKind { left: bx(l), right: bx(r) },
+            }
+        }
+        OpSumKind { kind, left, right } => OpSumKind { kind: kind.clone(), left: bx(reassoc(left)), right: bx(reassoc(right)) },
+        OpRangeKind { left, right } => OpRangeKind { left: bx(reassoc(left)), right: bx(reassoc(right)) },
+        OpProductKind { kind, left, right } => OpProductKind { kind: kind.clone(), left: bx(reassoc(left)), right: bx(reassoc(right)) },
+        OpPowerKind { left, right } => OpPowerKind { left: bx(reassoc(left)), right: bx(reassoc(right)) },
+        CompareKind { kind, left, right } => CompareKind { kind: kind.clone(), left: bx(reassoc(left)), right: bx(reassoc(right)) },
+        UnaryKind { kind, right } => UnaryKind { kind: kind.clone(), right: bx(reassoc(right)) },
+        ImplicitIntersection { automatic, child } => ImplicitIntersection { automatic: *automatic, child: bx(reassoc(child)) },
+        SpillRangeOperator { child } => SpillRangeOperator { child: bx(reassoc(child)) },
+        FunctionKind { kind, args } => FunctionKind { kind: kind.clone(), args: args.iter().map(reassoc).collect() },
+        NamedFunctionKind { id, name, args } => NamedFunctionKind { id: *id, name: name.clone(), args: args.iter().map(reassoc).collect() },
+        LambdaDefKind { parameters, body } => LambdaDefKind { parameters: parameters.clone(), body: bx(reassoc(body)) },
+        LambdaCallKind { lambda, args } => LambdaCallKind { lambda: bx(reassoc(lambda)), args: args.iter().map(reassoc).collect() },
+        leaf => leaf.clone(),
     }
 }
 
